@@ -2,7 +2,7 @@
 import os
 from concurrent.futures import ThreadPoolExecutor
 
-from harness import core, gwcheck, oracles
+from harness import gwcheck, oracles
 from harness.core import enc_str, dec_str
 from harness.gen import scenarios_a
 from harness.impl import gwrun
